@@ -73,9 +73,13 @@ TRUSTED_BASE = [
     "the filter settings is property C03; downsample_grid itself is C16; "
     "the memoisation of the kde functions (dclab/cached.py) is C17 - the "
     "cache is cleared before every evaluated dataset",
+    "kde_multivariate: statsmodels' _adjust_shape is modelled and compared "
+    "exactly (adjust_flat); that kde_multivariate hands it an (N,2) array "
+    "(fix e62c3b0) is established only by the differential oracle",
     "quantile oracle: densities at the events are recomputed with an "
     "independent bilinear interpolation; counts use a tolerance of 1e-9 * "
-    "max density",
+    "max density; events within 1e-9 (relative) of the border of the grid "
+    "count as ambiguous (log-scale grids end at exp(log(x)))",
 ]
 ASSUMPTIONS = [
     "all features of a dataset have len(ds) entries and the mask has "
